@@ -118,3 +118,24 @@ Proof.
   split; [vm_compute; reflexivity|].
   destruct (mtg_spec [9] ga gb ga_nodup gb_nodup) as ((_ & S2 & _) & _). exact S2.
 Qed.
+
+(** C12_level_exact / C12_search_maximum: the levels of the pair (ga, gc): level 4 is empty, level 3 holds the two maximum
+    mappings; the search returns level 3 and reports that 5 = C(4,4) + C(4,3) subsets were tried *)
+Example level_nonvacuous :
+  level (node_match [9]) edge_match ga gc 4 = [] /\
+  level (node_match [9]) edge_match ga gc 3 = [[(1, 12); (2, 11); (3, 10)]; [(2, 11); (3, 10); (4, 12)]] /\
+  (forall m, In m (level (node_match [9]) edge_match ga gc 3) ->
+     common_induced (node_match [9]) edge_match ga gc m /\ length m = 3%nat) /\
+  search_subgraphs (node_match [9]) edge_match ga gc true =
+    ([[(1, 12); (2, 11); (3, 10)]; [(2, 11); (3, 10); (4, 12)]], 3%nat, 5%nat).
+Proof.
+  split; [vm_compute; reflexivity|]. split; [vm_compute; reflexivity|].
+  split; [exact (level_sound (node_match [9]) edge_match ga gc ga_nodup 3)|vm_compute; reflexivity].
+Qed.
+
+Example matchers_nonvacuous :
+  node_match [9] (Some (Some 1, [Some 1])) (Some (Some 1, [Some 1])) = true /\
+  node_match [9] (Some (None, [None])) (Some (Some 9, [Some 9])) = true /\       (* missing label = default "*" *)
+  node_match [9] (Some (Some 1, [Some 1])) (Some (Some 2, [Some 2])) = false /\
+  edge_match [None] [None] = true /\ edge_match [None] [Some 2%Z] = false /\ edge_match_mtg [None] [None] = false.
+Proof. repeat split; reflexivity. Qed.
